@@ -142,6 +142,11 @@ func applyModel(m lmodel, o cop) string {
 			return "false/err"
 		case "ldap", "basic", "api-auth":
 			return fmt.Sprintf("%v", good)
+		case "api-login":
+			if !good {
+				return "false"
+			}
+			return fmt.Sprintf("true/token(true,%s,%v)/body(%s,%v)", user, r.admin, user, r.admin)
 		}
 		return fmt.Sprintf("%v/%v", good, good && r.admin)
 	case "update":
